@@ -147,7 +147,9 @@ def splitMemberTarget (left : Node) (sp : Span) : M (Node × Node) :=
       | .other "Computed" _ ["expression"] [e] => isSimpleTargetPart e
       | _ => true
     if !isSimpleTargetPart obj || !keySimple then do
-      let (tobj, oobj) ← if isSimpleTargetPart obj then pure (obj, obj) else hoistTargetPart obj sp
+      -- an identifier is only read again as it is when nothing runs between the two reads
+      let objRepeatable := isSimpleTargetPart obj && (keySimple || !obj.isIdent)
+      let (tobj, oobj) ← if objRepeatable then pure (obj, obj) else hoistTargetPart obj sp
       let (tprop, oprop) ← match prop with
         | .other "Computed" csp ["expression"] [e] =>
           if !isSimpleTargetPart e then do
